@@ -2,14 +2,15 @@
 ID = "C16"
 LEVEL = "proof"
 MODULES = ["contracts.comm", "contracts.cov"]
+_NS = 4 if __import__("os").environ.get("VERIF_TIER") == "thorough" else 3
 _D = "bacpypes.service.detect:"
 _C = "bacpypes.service.cov:"
 FUNCTIONS = ([_C + "COVIncrementCriteria.present_value_filter"]
     + [_D + "DetectionMonitor.property_change[%s]" % k for k in ("analog presentValue", "generic presentValue", "statusFlags")]
-    + [_D + "DetectionAlgorithm._execute[%s, %d subscriptions]" % (c, n) for c in ("COVIncrementCriteria", "GenericCriteria") for n in range(3)]
+    + [_D + "DetectionAlgorithm._execute[%s, %d subscriptions]" % (c, n) for c in ("COVIncrementCriteria", "GenericCriteria") for n in range(_NS)]
     + [_C + "Subscription.process_task[%d subscriptions]" % n for n in (1, 2)]
-    + [_C + "ChangeOfValueServices.do_SubscribeCOVRequest[%d subscriptions]" % n for n in range(3)]
-    + [_C + "ActiveCOVSubscriptions.ReadProperty[%d subscriptions]" % n for n in range(3)])
+    + [_C + "ChangeOfValueServices.do_SubscribeCOVRequest[%d subscriptions]" % n for n in range(_NS)]
+    + [_C + "ActiveCOVSubscriptions.ReadProperty[%d subscriptions]" % n for n in range(_NS)])
 LEMMAS = []
 MIN_OBLIGATIONS = 30
 BOUNDED = None
